@@ -60,6 +60,7 @@ fn main() {
             "vanish" => Some(ctl_scen::vanish_family),
             "vanishdata" => Some(ctl_scen::vanishdata_family),
             "idle" => Some(ctl_scen::idle_family),
+            "midline" => Some(ctl_scen::midline_family),
             "par" => Some(ctl_scen::par_family),
             _ => None,
         };
@@ -91,6 +92,7 @@ fn main() {
             "queue" => ctl_queue::run(i, &mut rng),
             "srvq" => ctl_srvq::run(i, &mut rng),
             "srvp" => ctl_srvq::run_pool(i, &mut rng),
+            "backlog" => ctl_srvq::run_backlog(i, &mut rng),
             "pool" => ctl_pool::run(i, &mut rng),
             "seq" => ctl_seq::run(i, &mut rng),
             _ => {
@@ -102,6 +104,7 @@ fn main() {
             // the runtime unwound the driver thread out of a deadlock: an aborted run
             "queue" | "srvq" => format!("queue id={} anon=1 burst=0 seed=0 ptimer=0 prods= cons= | labels= hist= left=? blocked= quiet=0 aborted=1 clock=0", i),
             "pool" | "srvp" => format!("pool id={} anon={} burst=0 seed=0 ptimer=0 | labels= started=never live_burst=0 live_idle=0 live_dropped=0 live_end=0 quiet=000 aborted=1 clock=0", i, if kind == "srvp" { 1 } else { 0 }),
+            "backlog" => format!("srv id={} kind=backlog conns=0 n=0 taken=0 answered=0 base=0 after_drop=0 after=0 aborted=1 clock=0", i),
             _ => format!("seq id={} seed=0 progs= | labels= sock= quiet=0 aborted=1", i),
         });
         writeln!(out, "{}", line).unwrap();
